@@ -1526,7 +1526,7 @@ func (g *c17Gen) dollar(d *c17Doc) {
 
 func c17GenSections(r *verifh.Rng) []verifh.Section {
 	var secs []verifh.Section
-	nsec := verifh.Scale(200, 2500)
+	nsec := verifh.Scale(200, 1300)
 	for i := 0; i < nsec; i++ {
 		g := &c17Gen{r: r.Fork(), plain: i%2 == 0, dots: i%3 == 1, ext: i%4 == 1 || i%4 == 3}
 		g.mode.dotLiteral = 15
@@ -1676,6 +1676,17 @@ func c17GenSections(r *verifh.Rng) []verifh.Section {
 				d = g.docFor(t, 0, nulls)
 			}
 			ops = append(ops, fmt.Sprintf("munm %d %d %s", bits, g.r.Intn(16), d.enc()))
+		}
+		// the same call again, later in the same process, after calls with other option sets: the result must be
+		// the same (options, caches and defaults of earlier calls must not reach a later one)
+		var again []string
+		for _, o := range ops {
+			if strings.HasPrefix(o, "munm 0 ") || strings.HasPrefix(o, "fload ") || strings.HasPrefix(o, "load ") {
+				again = append(again, o)
+			}
+		}
+		for q := 0; q < 3 && len(again) > 0; q++ {
+			ops = append(ops, again[g.r.Intn(len(again))])
 		}
 		secs = append(secs, verifh.Section{Cfg: "kind=load", Ops: ops})
 	}
